@@ -142,6 +142,43 @@ fn triple(a: i64, b: i64, c: i64) -> Result<(), Fail> {
             ensure!(Score(fx).partial_cmp(&Score(fy)) == fx.partial_cmp(&fy), "Score/float-order", "Score({fx}).partial_cmp(Score({fy})) = {:?}", Score(fx).partial_cmp(&Score(fy)));
         }
     }
+    // collections of float results (and individuals holding them) compare exactly as their totals do: two
+    // objects, an object and its clone, and an object with *itself* (a NaN total is not even equal to itself)
+    for vals in [vec![a as f64, b as f64], vec![f64::NAN, b as f64], vec![a as f64, f64::NAN, 1.0], vec![], vec![c as f64]] {
+        macro_rules! self_and_clone {
+            ($mk:expr, $name:literal) => {{
+                let mk = $mk;
+                let t = TestResults { results: vals.iter().copied().map(&mk).collect::<Vec<_>>(), total_result: mk(vals.iter().sum::<f64>()) };
+                let u = TestResults { results: vec![mk(b as f64)], total_result: mk(b as f64) };
+                let tc = t.clone();
+                for (what, p, q) in [("another collection", &t, &u), ("its clone", &t, &tc), ("itself", &t, &t)] {
+                    let want = (p.total_result.partial_cmp(&q.total_result), p.total_result < q.total_result, p.total_result <= q.total_result, p.total_result > q.total_result, p.total_result >= q.total_result);
+                    let got = (p.partial_cmp(q), p < q, p <= q, p > q, p >= q);
+                    ensure!(
+                        got == want,
+                        concat!("TestResults<", $name, "<f64>>/not-as-totals"),
+                        "a collection with total {:?} compared with {what} (total {:?}): (partial_cmp, <, <=, >, >=) = {got:?}, the totals give {want:?}",
+                        p.total_result,
+                        q.total_result
+                    );
+                }
+                let (it, iu) = (EcIndividual::new(1u8, t.clone()), EcIndividual::new(2u8, u.clone()));
+                let itc = it.clone();
+                for (what, p, q) in [("another individual", &it, &iu), ("its clone", &it, &itc), ("itself", &it, &it)] {
+                    let (tp, tq) = (&p.test_results.total_result, &q.test_results.total_result);
+                    let want = (tp.partial_cmp(tq), tp < tq, tp <= tq, tp > tq, tp >= tq);
+                    let got = (p.partial_cmp(q), p < q, p <= q, p > q, p >= q);
+                    ensure!(
+                        got == want,
+                        "EcIndividual/partially-ordered-results",
+                        "an individual whose results total {tp:?} compared with {what} (total {tq:?}): (partial_cmp, <, <=, >, >=) = {got:?}, the totals give {want:?}"
+                    );
+                }
+            }};
+        }
+        self_and_clone!(Score::<f64>, "Score");
+        self_and_clone!(ErrRes::<f64>, "Error");
+    }
     // transitivity / antisymmetry on the triple, both polarities
     let s = [Score(a), Score(b), Score(c)];
     let e = [ErrRes(a), ErrRes(b), ErrRes(c)];
